@@ -1,6 +1,7 @@
 import PyPhysim.Model.Proto
 import PyPhysim.Model.C04
 import PyPhysim.Model.C04Obj
+import PyPhysim.Model.C04Buf
 open PyPhysim.Proto PyPhysim.C04
 
 /-!
@@ -271,6 +272,25 @@ def handle : List String → String
       if v = "none" then return showE showC (setNoiseVar (α := CF) none)
       let some x := parseC 1 v | return "bad-op"
       return showE showC (setNoiseVar (some (x.getD 0 0)))
+  -- buf <ops> : a caller with ONE channel array (contents are natural numbers); ops = r<k> (refill with k),
+  -- sb (set_channel_matrix(buf)), sf<k> (set_channel_matrix(fresh array with contents k)), o (observe)
+  -- -> observations of the code as it is | observations under value semantics    (`-` = no channel yet)
+  | ["buf", b0, ops] => Id.run do
+      let some b := b0.toNat? | return "bad-op"
+      let mut prog : List (Buf.BOp Nat) := []
+      for t in ops.splitOn "," do
+        if t = "sb" then prog := prog ++ [.setBuffer]
+        else if t = "o" then prog := prog ++ [.observe]
+        else if t.startsWith "sf" then
+          let some k := (t.drop 2).toNat? | return "bad-op"
+          prog := prog ++ [.setFresh k]
+        else if t.startsWith "r" then
+          let some k := (t.drop 1).toNat? | return "bad-op"
+          prog := prog ++ [.refill k]
+        else return "bad-op"
+      let sh (l : List (Option Nat)) : String :=
+        ",".intercalate (l.map (fun o => match o with | some k => toString k | none => "-"))
+      return sh (Buf.codeRun ⟨b, none, false⟩ prog) ++ "|" ++ sh (Buf.valRun ⟨b, none⟩ prog)
   | _ => "bad-op"
 
 def main : IO Unit := runDriver handle
